@@ -172,8 +172,10 @@ def gen(rng, tier, i):
     # probes after the last heal
     probes = []
     if last_up is not None:
-        for j in range(13):
-            at = last_up + 1000 + 10000 * j
+        # clients retry at their own pace: every 10 s, or once a second (a back-off that is fed by the retries themselves never ends)
+        probe_gap = rng.choice([10000, 10000, 1000])
+        for j in range(13 if probe_gap == 10000 else 60):
+            at = last_up + 1000 + probe_gap * j
             tunnel("probe%d" % j, at, False)
             probes.append("probe%d" % j)
         tunnel("hfinal", last_up + 5000, True)
@@ -223,16 +225,19 @@ def oracle(plan, out):
         # requests that were sent to the faulty upstream while it was down (they start a connection attempt)
         down_reqs = [t["at"] for t in meta["tunnels"] if not t["healthy"] and t["cid"] in present and not t["cid"].startswith("probe")
                      and any(d <= t["at"] < u for d, u in meta["windows"] if u is not None)]
-        if res and first_ok is not None and first_ok >= K_ATTEMPTS and meta["kind"] == "quic" and down_reqs and \
+        # the bound is a time: the first success must come from a probe started within K_ATTEMPTS * 10 s of the heal
+        late = lambda k: byid[res[k][0]]["at"] - meta["last_up"] > K_ATTEMPTS * 10000
+        if res and first_ok is not None and late(first_ok) and meta["kind"] == "quic" and down_reqs and \
                 byid[res[first_ok][0]]["at"] - meta["last_up"] <= meta["last_up"] - min(down_reqs):
             # recovered, but only after as long as the oldest connection attempt had been pending: the QUIC connector's
             # single attempt (made under the connector's lock) is retransmitted with exponential back-off
-            v("slow-recovery-pending-attempt", "upstream healed at %.3fs; probes every 10 s: %s - the first success came %.0fs after the heal; a request had started a "
+            v("slow-recovery-pending-attempt", "upstream healed at %.3fs; probes: %s - the first success came %.0fs after the heal; a request had started a "
               "connection attempt at %.3fs, while the upstream was down" % (meta["last_up"] / 1e3, "".join("+" if ok else "-" for p, ok in res),
                                                                             (byid[res[first_ok][0]]["at"] - meta["last_up"]) / 1e3, min(down_reqs) / 1e3))
-        elif res and (first_ok is None or first_ok >= K_ATTEMPTS):
-            v("no-recovery", "upstream healed at %.3fs; probes every 10 s: %s - none of the first %d attempts succeeded" % (
-                meta["last_up"] / 1e3, "".join("+" if ok else "-" for p, ok in res), K_ATTEMPTS))
+        elif res and (first_ok is None or late(first_ok)):
+            gap = (byid[res[1][0]]["at"] - byid[res[0][0]]["at"]) / 1e3 if len(res) > 1 else 10
+            v("no-recovery", "upstream healed at %.3fs; probes every %g s: %s - no attempt within %d s of the heal succeeded" % (
+                meta["last_up"] / 1e3, gap, "".join("+" if ok else "-" for p, ok in res), K_ATTEMPTS * 10))
         elif res:
             bad = [p for p, ok in res[first_ok:] if not ok]
             if bad:
